@@ -166,6 +166,57 @@ fn scalar_job(job: &J) -> J {
     }
 }
 
+/// What the getters of a register inside a driver callback expose: the value and, for the vector classes,
+/// the first- and second-order parts as multisets (sorted bit patterns; the row/column convention of the
+/// matrix-valued getters is not part of C17).
+trait CbParts {
+    fn cb(&self) -> J;
+}
+fn sorted_bits<'a>(it: impl Iterator<Item = &'a f64>) -> Vec<String> {
+    let mut v: Vec<String> = it.map(|x| format!("{:016x}", x.to_bits())).collect();
+    v.sort();
+    v
+}
+/// entries of an optional part as a sorted multiset; None when the part is absent (public API only)
+fn part<R: nalgebra::Dim, C: nalgebra::Dim>(d: &Derivative<f64, f64, R, C>, r: R, c: C) -> Option<Vec<String>>
+where
+    nalgebra::DefaultAllocator: nalgebra::allocator::Allocator<R, C>,
+{
+    if *d == Derivative::none() {
+        None
+    } else {
+        Some(sorted_bits(d.clone().unwrap_generic(r, c).iter()))
+    }
+}
+impl CbParts for DualDVec64 {
+    fn cb(&self) -> J {
+        json!({"value": bits(self.re), "first": part(&self.eps, nalgebra::Dyn(0), nalgebra::Const::<1>)})
+    }
+}
+impl CbParts for Dual2DVec64 {
+    fn cb(&self) -> J {
+        json!({"value": bits(self.re), "first": part(&self.v1, nalgebra::Const::<1>, nalgebra::Dyn(0)), "second": part(&self.v2, nalgebra::Dyn(0), nalgebra::Dyn(0))})
+    }
+}
+impl CbParts for HyperDualDVec64 {
+    fn cb(&self) -> J {
+        let (a, b) = (part(&self.eps1, nalgebra::Dyn(0), nalgebra::Const::<1>), part(&self.eps2, nalgebra::Const::<1>, nalgebra::Dyn(0)));
+        let first: Option<Vec<String>> = match (a, b) {
+            (None, None) => None,
+            (a, b) => {
+                let mut v: Vec<String> = a.unwrap_or_default().into_iter().chain(b.unwrap_or_default()).collect();
+                v.sort();
+                Some(v)
+            }
+        };
+        json!({"value": bits(self.re), "first": first, "second": part(&self.eps1eps2, nalgebra::Dyn(0), nalgebra::Dyn(0))})
+    }
+}
+macro_rules! cb_scalar {
+    ($($t:ty),+) => { $( impl CbParts for $t { fn cb(&self) -> J { json!({"value": bits(self.re)}) } } )+ };
+}
+cb_scalar!(Dual64, Dual2_64, Dual3_64, HyperDual64, HyperHyperDual64);
+
 /// Lift float constants that a driver program uses as extra inputs (registers after the variables).
 fn with_consts<D: DualNum<f64> + Clone>(vars: Vec<D>, consts: &[f64]) -> Vec<D> {
     let mut v = vars;
@@ -183,10 +234,12 @@ fn driver_job(job: &J) -> J {
     let consts: Vec<f64> = job["consts"].as_array().map(|a| a.iter().map(f).collect()).unwrap_or_default();
     let ret = job.get("ret").and_then(|r| r.as_u64()).map(|r| r as usize);
     let mut reprs: Vec<String> = vec![];
+    let mut getters: Vec<J> = vec![];
     macro_rules! body {
         ($vars:expr) => {{
             let regs = run(ops, with_consts($vars, &consts));
             reprs = regs.iter().map(|r| r.to_string()).collect();
+            getters = regs.iter().map(|r| r.cb()).collect();
             regs[ret.unwrap_or(regs.len() - 1)].clone()
         }};
     }
@@ -231,6 +284,7 @@ fn driver_job(job: &J) -> J {
                 |v: DVector<DualDVec64>| {
                     let regs = run(ops, with_consts(v.iter().cloned().collect(), &consts));
                     reprs = regs.iter().map(|r| r.to_string()).collect();
+                    getters = regs.iter().map(|r| r.cb()).collect();
                     DVector::from_vec(rets.iter().map(|i| regs[*i].clone()).collect())
                 },
                 DVector::from_vec(x.clone()),
@@ -251,7 +305,7 @@ fn driver_job(job: &J) -> J {
         }
         other => panic!("twin: unknown driver {other}"),
     };
-    json!({"result": result, "reprs": reprs})
+    json!({"result": result, "reprs": reprs, "getters": getters})
 }
 
 fn main() {
